@@ -5046,6 +5046,8 @@ bracket_addr_ok(const char *s, const char *eos)
 		if (*s != '.')
 			return 0;
 		++s;
+		if (s == eos) /*require at least one*/
+			return 0;
 		while (s < eos) {
 			if (CHAR_IS_UNRESERVED(*s) ||
 			    strchr(SUBDELIMS, *s) ||
